@@ -400,5 +400,5 @@ pub fn run(ctx: &mut Ctx) {
 	ctx.assume("generic signatures, simple inner names, annotation element names, local variable / parameter names and invokedynamic / condy names are not compared (the remapper gives no answer for them)");
 	ctx.assume("unknown attributes are not generated here (their bytes may hold constant pool indices; dukebox drops them)");
 	ctx.assume("inheritance among the classes of a jar is acyclic");
-	ctx.run_sub("remap_jar", ctx.tier.pick(3000, 60_000), strategy, check);
+	ctx.run_sub("remap_jar", ctx.tier.pick(12000, 600000), strategy, check);
 }
